@@ -277,20 +277,21 @@ func init() {
 
 // e2p mirrors w.E2Params.
 type e2p struct {
-	Clients  int      `json:"clients"`
-	Keys     []string `json:"keys,omitempty"`
-	Type     string   `json:"type"`
-	Modes    []string `json:"modes,omitempty"`
-	Alpha    string   `json:"alpha,omitempty"`
-	Oracles  []string `json:"oracles"`
-	SyncType string   `json:"sync_type,omitempty"`
-	Colls    []string `json:"colls,omitempty"`
-	Prefix   string   `json:"prefix,omitempty"`
-	Exchange string   `json:"exchange,omitempty"`
-	Faults   []string `json:"faults,omitempty"`
-	MaxFault int      `json:"max_faults,omitempty"`
-	Resend   bool     `json:"resend,omitempty"`
-	Types    []string `json:"types,omitempty"`
+	Clients    int      `json:"clients"`
+	Keys       []string `json:"keys,omitempty"`
+	Type       string   `json:"type"`
+	Modes      []string `json:"modes,omitempty"`
+	Alpha      string   `json:"alpha,omitempty"`
+	Oracles    []string `json:"oracles"`
+	SyncType   string   `json:"sync_type,omitempty"`
+	Colls      []string `json:"colls,omitempty"`
+	Prefix     string   `json:"prefix,omitempty"`
+	Exchange   string   `json:"exchange,omitempty"`
+	Faults     []string `json:"faults,omitempty"`
+	MaxFault   int      `json:"max_faults,omitempty"`
+	Resend     bool     `json:"resend,omitempty"`
+	Types      []string `json:"types,omitempty"`
+	SyncFaults []string `json:"sync_faults,omitempty"`
 }
 
 const assumeE2 = "whole system in one testing/synctest bubble per execution: real OrdaService, real server/mongodb over mongo-driver 1.10.1 speaking the wire protocol to the in-memory mongofake, real Notifier over an MQTT stand-in, real SDK clients over an in-process RPC stub (protobuf round trip per message); virtual time; background goroutines drained after every action"
@@ -352,6 +353,7 @@ func init() {
 				e2run("counter-2c-joined-d5", e2p{Clients: 2, Type: "counter", Prefix: "joined", Resend: true, Oracles: o}, 5, 0),
 				e2run("list-2c-joined-d4", e2p{Clients: 2, Type: "list", Prefix: "joined", Resend: true, Oracles: o}, 4, 0),
 				e2run("counter-1c-d5", e2p{Clients: 1, Type: "counter", Resend: true, Oracles: o}, 5, 0),
+				e2run("counter-2c-joined-lostresponse-d5", e2p{Clients: 2, Type: "counter", Prefix: "joined", SyncFaults: []string{"drop", "dup"}, MaxFault: 2, Alpha: "one", Oracles: o}, 5, 0),
 			}
 		} else {
 			p.BudgetS = 3300
@@ -361,6 +363,8 @@ func init() {
 				e2run("list-2c-joined-d6", e2p{Clients: 2, Type: "list", Prefix: "joined", Resend: true, Oracles: o}, 6, 300000),
 				e2run("map-2c-entry-d6", e2p{Clients: 2, Type: "map", Resend: true, Oracles: o}, 6, 300000),
 				e2run("counter-6c-joined-d4", e2p{Clients: 6, Type: "counter", Prefix: "joined", Resend: true, Oracles: o}, 4, 300000),
+				e2run("counter-2c-joined-lostresponse-d7", e2p{Clients: 2, Type: "counter", Prefix: "joined", SyncFaults: []string{"drop", "dup"}, MaxFault: 3, Alpha: "one", Oracles: o}, 7, 300000),
+				e2run("list-2c-joined-lostresponse-d5", e2p{Clients: 2, Type: "list", Prefix: "joined", SyncFaults: []string{"drop", "dup"}, MaxFault: 2, Oracles: o}, 5, 300000),
 			}
 		}
 		return p
@@ -468,6 +472,27 @@ func init() {
 				{Name: "mutation-pairs-counter", Check: "C16", Kind: "mutreq", Cases: true, Params: map[string]interface{}{"type": "counter", "pairs": true}, Shards: 16},
 				{Name: "mutations-list", Check: "C16", Kind: "mutreq", Cases: true, Params: map[string]interface{}{"type": "list"}, Shards: 16},
 				{Name: "mutations-doc", Check: "C16", Kind: "mutreq", Cases: true, Params: map[string]interface{}{"type": "doc"}, Shards: 16},
+			}
+		}
+		return p
+	}
+}
+
+func init() {
+	plans["C19"] = func(tier string) Plan {
+		p := Plan{ID: "C19", Level: "model_checking",
+			Rule: "(client) breadth-first search of depth 2 (thorough 3 = chains) whose actions are PatchByJSON(target) for every target of a generated document set (keys a, b, a/b, ~k; primitive / object / array values, " +
+				"depth <= 2): depth 1 builds every source from the empty document, depth 2 covers ALL ordered pairs (source, target); after every patch the value equals the target and the emitted operations form one " +
+				"unit; at the closure a second replica that receives the operations reads the same value; (REST) see the rest-* runs: PatchDocument against absent / present documents interleaved with client pushes",
+			Assume: []string{assumeE1, assumeE2, assumeInstr, "targets contain no nulls"}}
+		if tier == "quick" {
+			p.BudgetS = 480
+			p.Runs = []Run{{Name: "pairs-small", Check: "C19", Params: wp{Type: "doc", N: 2, Alpha: "small"}, Depth: 2}}
+		} else {
+			p.BudgetS = 3300
+			p.Runs = []Run{
+				{Name: "pairs-large", Check: "C19", Params: wp{Type: "doc", N: 2, Alpha: "large"}, Depth: 2},
+				{Name: "chains-small", Check: "C19", Params: wp{Type: "doc", N: 2, Alpha: "small"}, Depth: 3, MaxState: 400000},
 			}
 		}
 		return p
